@@ -36,7 +36,7 @@ def main():
             props = a.split("=", 1)[1].split(",")
     seeds = args or sorted(os.listdir(os.path.join(VERIF, "seeded")))
     seeds = [s for s in seeds if os.path.exists(os.path.join(VERIF, "seeded", s, "patch.diff"))]
-    with ThreadPoolExecutor(8) as ex:
+    with ThreadPoolExecutor(15) as ex:
         results = list(ex.map(lambda s: run_one(s, props), seeds))
     for seed, res, err in results:
         meta = {}
